@@ -712,6 +712,11 @@ func runEdf(f flags) {
 		regmap := append(append(append([]byte{131}, be16(uint16(len(hm)))...), hm...), 131, 0x7f, 0xff, 0xff, 0xff)
 		cases = append(cases, hcase{Class: "fixed-regmap-count", Hex: hex.EncodeToString(regmap), Tags: []string{}})
 		cases = append(cases, hcase{Class: "fixed-binary-wrap", Hex: "8efffffffc00000000", Tags: []string{}})
+		// a slice whose items have zero size ([][0]int, [][][0]int) with an inflated item count: no byte of input
+		// stands behind the count, the decoder must refuse it at once (it does: "incorrect data length"), not walk 2^32 items
+		cases = append(cases, hcase{Class: "zero-size-slice-inflated-count", Hex: hex.EncodeToString([]byte{130, 0, 7, 157, 158, 0, 0, 0, 0, 150, 157, 0xff, 0xff, 0xff, 0xff}), Tags: []string{}})
+		cases = append(cases, hcase{Class: "zero-size-slice-inflated-count", Hex: hex.EncodeToString([]byte{130, 0, 8, 157, 157, 158, 0, 0, 0, 0, 150, 157, 0, 0, 0, 2, 157, 0xff, 0xff, 0xff, 0xff, 157, 0xff, 0xff, 0xff, 0xff}), Tags: []string{}})
+		cases = append(cases, hcase{Class: "zero-size-slice-inflated-count", Hex: hex.EncodeToString([]byte{130, 0, 7, 157, 158, 0, 0, 0, 0, 150, 157, 0x08, 0, 0, 0}), Tags: []string{}})
 		for len(cases) < f.n {
 			var c hcase
 			c.Tags = []string{}
